@@ -71,6 +71,7 @@ var kindWidth = [...]int{1, 2, 3, 4, 8, 1, 2, 3, 4, 8, -1, -1, 1, -1}
 func isSigned(k int) bool { return k >= kI8 && k <= kI64 }
 
 type wrOp struct {
+	le   bool // byte order in force for this write (the exported ByteOrder field may be switched between calls)
 	kind int
 	val  uint64 // integer kinds: the value's low `width` bytes, sign-extended for signed kinds
 	b    []byte
@@ -348,6 +349,18 @@ func (m *c19) sizeArg(data []byte) int64 {
 		return m.declared
 	}
 	return int64(len(data))
+}
+
+// setOrder switches the byte order of every live reader (each BinaryReader has its own field).
+func (m *c19) setOrder(all []*brModel, le bool) {
+	m.le = le
+	for _, b := range all {
+		if le {
+			b.r.ByteOrder = binary.LittleEndian
+		} else {
+			b.r.ByteOrder = binary.BigEndian
+		}
+	}
 }
 
 func (m *c19) closeAll() {
@@ -671,14 +684,25 @@ func RunC19(ctx *core.Ctx) *core.Violation {
 		w.ByteOrder = binary.LittleEndian
 	}
 	ref := append([]byte(nil), prefix...)
+	wle := m.le
 	var ops []wrOp
 	nW := t.Weighted(1, 3, 6, 3)
 	nW = []int{0, 1 + t.Draw(2), 3 + t.Draw(6), 9 + t.Draw(24)}[nW]
 	for i := 0; i < nW; i++ {
-		op := wrOp{kind: t.Draw(nKinds)}
+		if t.Chance(1, 10) {
+			// the byte order is a plain exported field: switching it between two calls is legal
+			wle = !wle
+			if wle {
+				w.ByteOrder = binary.LittleEndian
+			} else {
+				w.ByteOrder = binary.BigEndian
+			}
+			ctx.Count("probe_byte_order_switched")
+		}
+		op := wrOp{kind: t.Draw(nKinds), le: wle}
 		if kw := kindWidth[op.kind]; kw > 0 {
 			op.val = drawInt(t, kw, isSigned(op.kind))
-			ref = refEncode(ref, m.le, kw, op.val)
+			ref = refEncode(ref, wle, kw, op.val)
 		} else {
 			ln := t.Draw(7)
 			if t.Chance(1, 40) {
@@ -783,6 +807,9 @@ func RunC19(ctx *core.Ctx) *core.Violation {
 		}
 		for _, op := range ops {
 			var v *core.Violation
+			if op.le != m.le {
+				m.setOrder(all, op.le)
+			}
 			switch {
 			case kindWidth[op.kind] > 0 && op.kind != kByte:
 				v = m.doTyped(cur, op.kind)
@@ -808,6 +835,10 @@ func RunC19(ctx *core.Ctx) *core.Violation {
 		for i := 0; i < 200; i++ {
 			if t.Draw(stopN) == 0 {
 				break
+			}
+			if t.Chance(1, 12) {
+				m.setOrder(all, !m.le)
+				ctx.Count("probe_byte_order_switched")
 			}
 			op := t.Weighted(8, 3, 1, 2, 3, 3, 4, 1, 1)
 			ctx.SigAdd(uint64(200 + op))
